@@ -116,7 +116,8 @@ func (a *abstraction) path(p string) ([]string, bool) {
 	for _, part := range strings.Split(p, "/") {
 		id, ok := a.inv[part]
 		if !ok {
-			return nil, false
+			// a name nobody wrote: keep it visible (and never emit a JSON null)
+			return []string{"?" + p}, false
 		}
 		out = append(out, id)
 	}
@@ -234,6 +235,7 @@ func (a *abstraction) project(inst *sut.Instance, call Call, cerr error, prevRec
 				c, ok := a.content(e.Data)
 				if !ok {
 					odd = append(odd, fmt.Sprintf("content of %s (%d bytes) is not a sequence of written chunks", p, len(e.Data)))
+					c = []string{"?"}
 				}
 				v.Content = c
 				if int64(len(e.Data)) != e.Size {
@@ -377,6 +379,7 @@ func recordTrace(ts *TraceSpec, ks *sut.KeySet, work string) (out TraceOut) {
 		out.Infra = fmt.Sprintf("open: returned=%v panic=%v err=%v", ok, pan, err)
 		return
 	}
+	defer inst.Close()
 	out.Cfg = inst.Cfg
 	w := NewWorld(inst, ts.Conc)
 	chunkIDs := []string{}
